@@ -182,10 +182,26 @@ static void fam_enqueue(Result& R, Rng& r) {
     std::atomic<bool> tstop{false}; std::thread tog;
     uint64_t tog_seed = r.next();
     if (toggler) tog = std::thread([&, tog_seed] { Rng tr(tog_seed); while (!tstop.load()) { { tbb::global_control g(tbb::global_control::max_allowed_parallelism, 1 + tr.below(4)); sleep_us(100 + (unsigned)tr.below(1500)); } sleep_us(100 + (unsigned)tr.below(1500)); } });
+    // competitors: application threads that bring *spawned* (not enqueued) demand into some of the arenas - before and while the
+    // enqueues happen - and never depend on the enqueued tasks. Their arenas keep asking for workers (with no worker around nobody
+    // retracts the request), possibly at a higher priority than the arena that holds an enqueued task: that task must run all the same.
+    int ncomp = narenas >= 2 && r.chance(1, 2) ? 1 + (int)r.below(2) : 0;
+    std::atomic<bool> cstop{false}; std::vector<std::thread> comp; uint64_t cseed = r.next();
+    std::atomic<long> comp_groups{0};
+    for (int c = 0; c < ncomp; c++) comp.emplace_back([&, c] {
+        Rng cr(mix(cseed, c)); tbb::task_arena& ca = *arenas[c % arenas.size()];
+        int bursts = 1 + (int)cr.below(4);
+        for (int b = 0; (b < bursts || cr.chance(1, 2)) && !cstop.load(); b++) {
+            ca.execute([&] { tbb::task_group tg; int n = 1 + (int)cr.below(6); for (int k = 0; k < n; k++) tg.run([] { spin_iters(200 + (unsigned)trng().below(3000)); }); tg.wait(); });
+            comp_groups++;
+            sleep_us(50 + (unsigned)cr.below(1500));
+        }
+    });
+    if (ncomp) sleep_us(200 + (unsigned)r.below(1500));
     for (int rd = 0; rd < rounds; rd++) {
         int per = 1 + (int)r.below(5);
         long total = (long)submitters * per;
-        Json pj; pj.obj(); pj.kv("arenas", shp); pj.kv("zero_workers", zero_workers); pj.kv("global_control_toggled", toggler); pj.kv("submitters", submitters); pj.kv("tasks", total); pj.end_obj();
+        Json pj; pj.obj(); pj.kv("arenas", shp); pj.kv("zero_workers", zero_workers); pj.kv("global_control_toggled", toggler); pj.kv("submitters", submitters); pj.kv("tasks", total); pj.kv("competitor_threads_with_spawned_work", ncomp); pj.end_obj();
         g_cur.set("enqueue", pj.s, total);
         Latch latch(total);
         std::atomic<int> ran_by_other{0};
@@ -206,6 +222,8 @@ static void fam_enqueue(Result& R, Rng& r) {
         progress();
         sleep_us(1000 + (unsigned)r.below(9000));   // idle gap: workers fall asleep, mandatory concurrency is switched off again
     }
+    cstop = true; for (auto& t : comp) t.join();
+    if (ncomp) { R.stat("enqueue.scenarios_with_spawned_demand_in_a_competing_arena"); if (zero_workers) R.stat("enqueue.scenarios_with_spawned_demand_in_a_competing_arena_and_no_workers"); R.stat("enqueue.competitor_groups", comp_groups.load()); }
     if (toggler) { tstop = true; tog.join(); }
 }
 
